@@ -40,6 +40,13 @@ def subRoot (ls : List H) : Nat → Nat → H
 /-- Root of a list that forms exactly one perfect tree of height `h`. -/
 def perfectRoot (h : Nat) (l : List H) : H := subRoot l h 0
 
+/-- The same root written by halving the list (no index arithmetic): the root of the
+    perfect tree over the first `2^h` elements of `l`. `Lemmas/Forest: subRoot_eq_halving`
+    proves `subRoot ls h s = halvingRoot h (ls.drop s)`. -/
+def halvingRoot : Nat → List H → H
+  | 0, l => l.headD default
+  | h + 1, l => node (halvingRoot h (l.take (2 ^ h))) (halvingRoot h (l.drop (2 ^ h)))
+
 /-- First leaf of the tree of height `h` in a forest of `n` leaves: the sum of the
     sizes of all higher trees, i.e. `n` with its low `h+1` bits cleared. -/
 def treeStart (n h : Nat) : Nat := n / 2 ^ (h + 1) * 2 ^ (h + 1)
